@@ -157,7 +157,7 @@ func (C04) Explore(x *kernel.Explorer, seed uint64) {
 	for i := 0; i < 4 && !x.Expired(); i++ {
 		plan := &kernel.Plan{Prop: "C04", Seed: kernel.Mix(seed, uint64(i)), Swarm: map[string]int64{
 			"chunk": int64(r.Intn(4)), "colseed": int64(r.Uint32()), "stranger": int64(r.Intn(2)),
-			"mysql": int64(r.Intn(3) / 2), "depeof": int64(r.Intn(2))}}
+			"mysql": int64(r.Intn(3) / 2), "depeof": int64(r.Intn(2)), "wyield": int64(r.Intn(2))}}
 		n := 2 + r.Intn(8)
 		for j := 0; j < n; j++ {
 			kind := r.Pick("insert", "insert", "insert-multi", "insert-nocols", "update", "select", "select-star", "insert-returning", "db-error")
@@ -221,6 +221,7 @@ func (C04) Run(t *testing.T, plan *kernel.Plan, keepLog bool) *kernel.Result {
 		for _, c := range cols {
 			dbCols = append(dbCols, Col{c.Name, c.dbType()})
 		}
+		pw.WriteYield = plan.Sw("wyield") == 1
 		pw.DB.AddTable("t1", dbCols...)
 		pw.DB.AddTable("t2", Col{"id", TInt4}, Col{"note", TText}) // not covered by the configuration
 		// --- build the owner's script and the model
